@@ -259,7 +259,8 @@ PROPERTIES = {
         'technique': TECH,
     },
     'C11': {
-        'units': [io.ReadPhaseSpace, io.MakePSFromHDF5, mainspec.MainStartDistribution, io.ProgramOptionsGetters],
+        'main_scenarios': ['restart'],
+        'units': [io.ReadPhaseSpace, io.MakePSFromHDF5, mainspec.MainStartDistribution, mainloop.MainLoop, io.ProgramOptionsGetters],
         'native_sweep': {'harness': 'h5start_replay', 'runs': [['all']], 'hdf5': True},
         'lemmas': [],
         'level': 'other',
